@@ -186,6 +186,22 @@ def c13():
           for _ in range(_n(chk, 150, 1500))]
     traces = [feature_trace(n + i + 1, b, cr) for i, b in enumerate(rb)]
     chk.monitor(traces, source="random-large+reward-observers")
+    # reward observers attached in the middle of a history: each reward still is the step's makespan growth / idle time
+    traces = []
+    for i, b in enumerate(behs[: _n(chk, 80, 500)] + rb[: _n(chk, 60, 400)]):
+        s = dsession.DSession(3 * n + i + 1, b["inst"], b["filt"], ())
+        acts = [a for a in b["hist"] if a["a"] in ("D", "Reset")]
+        cut = rng.randint(1, max(1, len(acts)))
+        for k, a in enumerate(acts):
+            if k == cut:
+                for (t, _f) in rng.sample(cr, rng.randint(1, 2)):
+                    s.create_builtin(t)
+            if a["a"] == "D":
+                s.dispatch(a["j"], a["p"], a["m"])
+            else:
+                s.reset()
+        traces.append(s.trace())
+    chk.monitor(traces, source="reward-observers-attached-mid-history")
     # rewards returned by the environments (single: 2 episodes; multi: the configured reward function in every episode)
     from .echecks import env_trace, random_env_cfg, multi_traces
     base = n + len(rb) + 1
